@@ -195,4 +195,19 @@ def run(ctx):
     # ---- shared ----
     ctx.borrow("C03", {"C03.R4": "C06.R6"}, "a truncated file is detected only if every raw read of the decoder raises on a short result")
 
+    ctx.borrow("C01", {"C01.R5": "C06.R7"}, "the short-read rule covers fo.read(n) inside BinaryDecoder only: any other way of obtaining bytes from the input (readinto, iteration, a second reader) escapes it")
+
+    # ---- R8 raw stream reads on the container path ----------------------------------------------------------
+    ctx.rule("C06.R8", "outside BinaryDecoder the container reader touches the raw input stream only in is_avro (magic comparison) and skip_sync (marker comparison that raises)", floor=2)
+    allowed = {"is_avro": "compares with MAGIC", "skip_sync": "compares with the sync marker and raises"}
+    rmod8 = p.module("_read_py")
+    for f8 in sorted(rmod8.all_funcs, key=lambda x: x.id):
+        for n8 in walk_local(f8.node):
+            if isinstance(n8, ast.Call) and isinstance(n8.func, ast.Attribute) and n8.func.attr in ("read", "readinto", "readline", "read1") and (norm(n8.func.value) in ("fo", "fp", "stream") or norm(n8.func.value).endswith(".fo")):
+                inst = f"{f8.qualname}: {norm(n8)[:60]}"
+                if f8.name in allowed:
+                    ctx.holds("C06.R8", inst + f" ({allowed[f8.name]})", f8.where(n8))
+                else:
+                    ctx.violation("C06.R8", inst + " is a raw read outside the decoder", f8.where(n8), f"{f8.qualname}: {norm(n8)[:80]}", "bytes taken from the input stream without the decoder's length check: a file cut inside this read is not detected (a short sync marker or header is accepted)")
+
 
